@@ -1088,7 +1088,7 @@ def run_mps_gate(case):
     warg = where[0] if (k == 1 and case["int_where"]) else tuple(where)
     # input class of finding C06-e: the flag has to be consumed by gate_with_auto_swap (distant pair) / gate_nonlocal (dagger)
     via_nonlocal = (mode == "nonlocal" and k >= 2) or (mode == "auto-mps" and k >= 3)
-    via_swap = k == 2 and mode in ("swap+split", "auto-mps") and not adjacent(cd, *where)
+    via_swap = k == 2 and mode in ("swap+split", "auto-mps") and abs(where[0] - where[1]) != 1  # (the periodic bond counts as distant)
     info = dict(entry="MPS.gate", contract=mode_name(mode), k=k, cyclic=cd["cyclic"], pre=bool(pre), default_site_tag=cd["site_tag_id"] == "I{}",
                 transpose=tr, dagger=dg, unconsumed_flag=bool((via_nonlocal and dg) or (via_swap and (tr or dg))),
                 hidden_gate_truncation=bool(via_nonlocal and schmidt_tail(Gm, [dims[w] for w in where], where)))
